@@ -72,5 +72,21 @@ theorem exchangeBatch_unsubscribed
   simp only [Option.map_some, C08_BatchNotify.afterBatch, hN _ _ _ _ _ hq]
   cases w1.listener.isSome <;> rfl
 
+/-- the same for a batch of target changes: the world handed back is the world the silent worker produced -/
+theorem setRelationBatch_world
+    (hN : IsNotifier archGetEntityF archMaskF archNodeF archTargetF lstSubsF notifyQueryF archHasRelCompF archRelCompF lstCompsF nodeMaskF notifyF)
+    (w : P256.World) (f : GoAny) (comp : BitVec 8) (target : P256.Entity) (ext : Ext)
+    (w1 : P256.World) (b1 : P256.batchArchetypes) (e1 : Ext) (n : Int) (wq : P256.World) (eq : Ext)
+    (h : P256.World.setRelationBatchNoNotify archActiveF archAllocNF archComponentsF archGetEntityF archGetF archHasComponentF archHasRelationF archInitF archLenF archMaskF archNodeF archResetF archSetEntityF archSetPointerF archTargetF archsGetF archsLenF asCachedFilterF matchesF nodeActiveF nodeArchMapF nodeArchetypesF nodeCreateArchetypeF nodeGetArchetypeF nodeHasRelationF nodeMatchesF nodeRelationF nodeRemoveArchetypeF nodeSetArchetypeF pagedAddF pagedGetF pagedLenF relationTargetF w f comp target default ext = some (w1, b1, e1, n))
+    (hq : P256.World.notifyQuery archGetEntityF archHasRelCompF archMaskF archNodeF archRelCompF archTargetF lstCompsF lstSubsF nodeMaskF notifyF w1 b1 e1 = some (wq, eq)) :
+    ∃ e2, P256.World.setRelationBatch archActiveF archAllocNF archComponentsF archGetEntityF archGetF archHasComponentF archHasRelationF archInitF archLenF archMaskF archNodeF archResetF archSetEntityF archSetPointerF archTargetF archsGetF archsLenF asCachedFilterF lstSubsF matchesF nodeActiveF nodeArchMapF nodeArchetypesF nodeCreateArchetypeF nodeGetArchetypeF nodeHasRelationF nodeMatchesF nodeRelationF nodeRemoveArchetypeF nodeSetArchetypeF notifyQueryF pagedAddF pagedGetF pagedLenF relationTargetF w f comp target ext = some (w1, e2, n) := by
+  rw [C08_BatchNotify.setRelationBatch_order, h]
+  have hw := C12_NotifyWorld.notifyQuery_world archGetEntityF archHasRelCompF archMaskF archNodeF archRelCompF archTargetF lstCompsF lstSubsF nodeMaskF notifyF w1 wq b1 e1 eq hq
+  subst hw
+  simp only [Option.map_some, C08_BatchNotify.afterBatch, hN _ _ _ _ _ hq]
+  cases (wq.listener.isSome && ((32#8 &&& lstSubsF e1 wq.listener) == 32#8))
+  · exact ⟨e1, rfl⟩
+  · exact ⟨eq, rfl⟩
+
 end
 end Arche.Props.C11_BatchWorld
